@@ -460,6 +460,161 @@ theorem posClosed_allPos (q : Schema → JV → Bool) : PosClosed (fun s v => Sc
     | tuple ss => simpa [RShape, VariantShape.allPos, Schema.allPos] using hv
     | struct_ fs => simpa [RShape, VariantShape.allPos, Schema.allPos] using hv
 
+omit hext in
+mutual
+/-- a stronger test everywhere gives the weaker one everywhere -/
+theorem allPos_mono (q q' : Schema → JV → Bool) (h : ∀ s v, q s v = true → q' s v = true) :
+    ∀ (s : Schema) (v : JV), Schema.allPos q s v = true → Schema.allPos q' s v = true
+  | .option s, v, hq => by
+    cases v <;> simp_all only [Schema.allPos] <;> exact allPos_mono q q' h s _ hq
+  | .newtype s, v, hq => by
+    simp only [Schema.allPos] at hq ⊢
+    exact allPos_mono q q' h s v hq
+  | .seq s, v, hq => by
+    cases v with
+    | arr xs =>
+      simp only [Schema.allPos, List.all_eq_true] at hq ⊢
+      exact fun x hx => allPos_mono q q' h s x (hq x hx)
+    | _ => simp [Schema.allPos]
+  | .tuple ss, v, hq => by
+    cases v with
+    | arr xs =>
+      simp only [Schema.allPos] at hq ⊢
+      exact allPosList_mono q q' h ss xs hq
+    | _ => simp [Schema.allPos]
+  | .map k s, v, hq => by
+    cases v with
+    | obj kvs =>
+      simp only [Schema.allPos, List.all_eq_true] at hq ⊢
+      exact fun kv hx => allPos_mono q q' h s kv.2 (hq kv hx)
+    | _ => simp [Schema.allPos]
+  | .struct_ fs d, v, hq => by
+    cases v with
+    | arr xs =>
+      simp only [Schema.allPos] at hq ⊢
+      exact allPosFieldsArr_mono q q' h fs xs hq
+    | obj kvs =>
+      simp only [Schema.allPos, List.all_eq_true] at hq ⊢
+      exact fun kv hx => allPosField_mono q q' h fs kv.1 kv.2 (hq kv hx)
+    | _ => simp [Schema.allPos]
+  | .enum_ vs, v, hq => by
+    cases v with
+    | obj kvs =>
+      cases kvs with
+      | nil => simp [Schema.allPos]
+      | cons kv kvs =>
+        obtain ⟨k, x⟩ := kv
+        simp only [Schema.allPos] at hq ⊢
+        exact allPosVariants_mono q q' h vs k x hq
+    | _ => simp [Schema.allPos]
+  | .bytes, v, hq => by
+    simp only [Schema.allPos, Bool.and_eq_true] at hq ⊢
+    refine ⟨h _ _ hq.1, ?_⟩
+    cases v with
+    | arr xs =>
+      have := hq.2
+      simp only [List.all_eq_true] at this ⊢
+      exact fun x hx => h _ _ (this x hx)
+    | _ => rfl
+  | .bool, v, hq | .int _, v, hq | .f64, v, hq | .f32, v, hq | .char, v, hq | .string, v, hq | .unit, v, hq
+  | .unitStruct, v, hq | .ignored, v, hq | .any, v, hq => by
+    simp only [Schema.allPos] at hq ⊢
+    exact h _ _ hq
+theorem allPosList_mono (q q' : Schema → JV → Bool) (h : ∀ s v, q s v = true → q' s v = true) :
+    ∀ (ss : List Schema) (xs : List JV), Schema.allPosList q ss xs = true → Schema.allPosList q' ss xs = true
+  | [], _, _ => by simp [Schema.allPosList]
+  | s :: ss, xs, hq => by
+    cases xs with
+    | nil => simp [Schema.allPosList]
+    | cons x xs =>
+      simp only [Schema.allPosList, Bool.and_eq_true] at hq ⊢
+      exact ⟨allPos_mono q q' h s x hq.1, allPosList_mono q q' h ss xs hq.2⟩
+theorem allPosFieldsArr_mono (q q' : Schema → JV → Bool) (h : ∀ s v, q s v = true → q' s v = true) :
+    ∀ (fs : List (Bytes × Schema)) (xs : List JV), Schema.allPosFieldsArr q fs xs = true → Schema.allPosFieldsArr q' fs xs = true
+  | [], _, _ => by simp [Schema.allPosFieldsArr]
+  | (n, s) :: fs, xs, hq => by
+    cases xs with
+    | nil => simp [Schema.allPosFieldsArr]
+    | cons x xs =>
+      simp only [Schema.allPosFieldsArr, Bool.and_eq_true] at hq ⊢
+      exact ⟨allPos_mono q q' h s x hq.1, allPosFieldsArr_mono q q' h fs xs hq.2⟩
+theorem allPosField_mono (q q' : Schema → JV → Bool) (h : ∀ s v, q s v = true → q' s v = true) :
+    ∀ (fs : List (Bytes × Schema)) (k : Bytes) (x : JV), Schema.allPosField q fs k x = true → Schema.allPosField q' fs k x = true
+  | [], _, _, _ => by simp [Schema.allPosField]
+  | (n, s) :: fs, k, x, hq => by
+    simp only [Schema.allPosField] at hq ⊢
+    split
+    · rename_i hn; rw [if_pos hn] at hq; exact allPos_mono q q' h s x hq
+    · rename_i hn; rw [if_neg hn] at hq; exact allPosField_mono q q' h fs k x hq
+theorem allPosVariants_mono (q q' : Schema → JV → Bool) (h : ∀ s v, q s v = true → q' s v = true) :
+    ∀ (vs : List (Bytes × VariantShape)) (k : Bytes) (x : JV), Schema.allPosVariants q vs k x = true → Schema.allPosVariants q' vs k x = true
+  | [], _, _, _ => by simp [Schema.allPosVariants]
+  | (n, sh) :: vs, k, x, hq => by
+    simp only [Schema.allPosVariants, Bool.and_eq_true, Bool.or_eq_true, Bool.not_eq_true'] at hq ⊢
+    exact ⟨hq.1.imp id (allPosShape_mono q q' h sh x), allPosVariants_mono q q' h vs k x hq.2⟩
+theorem allPosShape_mono (q q' : Schema → JV → Bool) (h : ∀ s v, q s v = true → q' s v = true) :
+    ∀ (sh : VariantShape) (x : JV), VariantShape.allPos q sh x = true → VariantShape.allPos q' sh x = true
+  | .unit, _, _ => rfl
+  | .newtype s, x, hq => by
+    simp only [VariantShape.allPos] at hq ⊢
+    exact allPos_mono q q' h s x hq
+  | .tuple ss, x, hq => by
+    cases x with
+    | arr xs =>
+      simp only [VariantShape.allPos] at hq ⊢
+      exact allPosList_mono q q' h ss xs hq
+    | _ => simp [VariantShape.allPos]
+  | .struct_ fs, x, hq => by
+    cases x with
+    | arr xs =>
+      simp only [VariantShape.allPos] at hq ⊢
+      exact allPosFieldsArr_mono q q' h fs xs hq
+    | obj kvs =>
+      simp only [VariantShape.allPos, List.all_eq_true] at hq ⊢
+      exact fun kv hx => allPosField_mono q q' h fs kv.1 kv.2 (hq kv hx)
+    | _ => simp [VariantShape.allPos]
+end
+
+/-! ## the executable forms the driver evaluates are the tests of the theorem -/
+
+omit hext in
+theorem litNearestX_eq (l : Bytes) : FromValue.litNearestX l = litNearest l := by
+  unfold FromValue.litNearestX
+  split
+  · rename_i h
+    obtain ⟨hwf, hbytes⟩ := SJ.Proofs.Number.splitNumber_of_isNumber l ((SJ.Proofs.Number.isNumber_iff l).1 h)
+    have h1 := SJ.Proofs.NumberAp.asF64_bytes (splitNumber l) hwf
+    have h2 := SJ.Proofs.NumberAp.litNearest_bytes (splitNumber l) hwf
+    rw [hbytes] at h1 h2
+    rw [h1, h2]
+  · rfl
+
+omit hext in
+theorem apNonFiniteX_eq : FromValue.apNonFiniteX = apNonFinite := by
+  funext s v
+  cases s <;> cases v <;> try rfl
+  rename_i n
+  cases n <;> try rfl
+  simp only [FromValue.apNonFiniteX, apNonFinite, litNearestX_eq]
+
+omit hext in
+theorem apAccurateX_eq (fr : Bool) : FromValue.apAccurateX fr = apAccurate fr := by
+  funext s v
+  cases s <;> cases v <;> try rfl
+  rename_i n
+  cases n <;> try rfl
+  simp only [FromValue.apAccurateX, apAccurate, litNearestX_eq]
+
+omit hext in
+/-- the exclusion the executable statement of op `c16` applies under `arbitrary_precision` is the disjunction of the three
+    exclusions of `c16_text_agrees_ap_partial` -/
+theorem c16ApExcluded_eq (ext' : FromValue.Ext) (s : Schema) (v : JV) :
+    FromValue.c16ApExcluded ext' s v =
+      (!(s.allPos (fun s v => !apNegZero s v) v) || !(s.allPos (fun s v => !apNonFinite s v) v) ||
+        !(s.allPos (fun s v => !FromValue.apAnyMoved ext' s v) v)) := by
+  unfold FromValue.c16ApExcluded
+  rw [apNonFiniteX_eq]
+
 /-! ## the assembled statement -/
 
 variable {a : Bool}
